@@ -2324,20 +2324,32 @@ def c01_r6(ctx, f, rid="C01.R6"):
     groups = _Groups()
     und = _Und()
     n_ok = 0
+    sfn = f.fn("polynomials::structure")
+    m_ = __import__("re").match(r"^\[u8; (\d+)\]$", (sfn.raw.get("output") or "") if sfn else "")
+    slen = int(m_.group(1)) if m_ else 0
     for mode in ref.MODES:
         for l in ref.LEVELS:
             for v in range(1, 41):
                 inst = "%s/%s/V%02d" % (mode, l, v)
-                pe = peval.PEval(f, max_steps=200000)
                 seen = {}
 
                 def s_encode(pe_, st, a, t):
                     seen["encode"] = (peval._deref(pe_, st, a[0]), to_py(a[1]), to_py(a[2]), to_py(a[3]))
                     return ("adt", CQ, 0, "CompactQR", (TOP, ("tok", ("encoded",))))
 
+                total = ref.total_codewords(v)
+                rich = {"on": True}
+
                 def s_structure(pe_, st, a, t):
                     seen["structure"] = (peval._deref(pe_, st, a[0]), to_py(a[1]), to_py(a[2]))
-                    return ("tok", ("structured",))
+                    if not rich["on"]:
+                        return ("tok", ("structured",))
+                    # the codeword sequence as an array of free bytes followed by the zero tail C02.R4 establishes (the length of
+                    # the array is the function's own return type)
+                    h = pe_.heap.new(slen, fold.mk_int("u8", 0))
+                    for j in range(total):
+                        pe_.heap.put(h, j, ("sbyte", j))
+                    return h
 
                 def s_to_vec(pe_, st, a, t):
                     return peval._deref(pe_, st, a[0])
@@ -2345,11 +2357,27 @@ def c01_r6(ctx, f, rid="C01.R6"):
                 def s_pom(pe_, st, a, t):
                     bits = peval._deref(pe_, st, a[0])
                     seen["place"] = (bits, to_py(a[1]), to_py(a[2]), peval._deref(pe_, st, a[3]))
+                    if rich["on"] and bits != TOP and bits[0] == "adt":
+                        items = peval._seq_items(pe_, peval._deref_all(pe_, st, bits[4][1])) if bits[4][1] != TOP else None
+                        seen["bytes"] = items
                     return _qr_make(f, ("tok", ("symbol",)), fold.mk_int("usize", ref.side(v)))
-                pe.summaries.update({"encode::encode": s_encode, "polynomials::structure": s_structure, "std::slice::<impl [T]>::to_vec": s_to_vec,
-                                     "placement::place_on_matrix": s_pom})
-                r = pe.run(fn.path, [("ref", ("const", ("symvec", 5))), mk_enum(ECL, l), mk_enum(MODE, mode), mk_enum(VERSION, "V%02d" % v),
-                                     ("cell", 0)], cells=[_opt(None)])
+
+                def run_once():
+                    pe = peval.PEval(f, max_steps=2_000_000)
+                    pe.arith = True
+                    pe.atom_ranges = {"sbyte": (0, 255)}
+                    sm = {"encode::encode": s_encode, "polynomials::structure": s_structure, "placement::place_on_matrix": s_pom}
+                    if not rich["on"]:
+                        sm["std::slice::<impl [T]>::to_vec"] = s_to_vec
+                    pe.summaries.update(sm)
+                    return pe.run(fn.path, [("ref", ("const", ("symvec", 5))), mk_enum(ECL, l), mk_enum(MODE, mode), mk_enum(VERSION, "V%02d" % v),
+                                            ("cell", 0)], cells=[_opt(None)])
+                r = run_once() if slen else None
+                if r is None or r.kind not in ("ret", "diverge") or seen.get("bytes") is None:
+                    # the bit string is built in a way the byte-level evaluation cannot follow: the codeword sequence as one token
+                    rich["on"] = False
+                    seen.clear()
+                    r = run_once()
                 if r.kind == "diverge":
                     groups.add("panics", inst, "a symbol", r.why)
                     continue
@@ -2364,8 +2392,19 @@ def c01_r6(ctx, f, rid="C01.R6"):
                     bad.append(("structure-arguments", ("encode(..).data", l, vv), str(seen.get("structure"))[:120]))
                 pl = seen.get("place")
                 nbits = 8 * ref.total_codewords(v) + ref.remainder_bits(v)
-                ok_bits = pl is not None and pl[0] != TOP and pl[0][0] == "adt" and pl[0][4][1] == ("tok", ("structured",)) and \
-                    pl[0][4][0] == fold.mk_int("usize", nbits)
+                if rich["on"]:
+                    bs = seen.get("bytes") or []
+                    need_b = (nbits + 7) // 8
+                    ok_bits = pl is not None and pl[0] != TOP and pl[0][0] == "adt" and pl[0][4][0] == fold.mk_int("usize", nbits) and \
+                        len(bs) >= need_b and all(bs[j] == ("sbyte", j) for j in range(total)) and \
+                        all(bs[j] == fold.mk_int("u8", 0) for j in range(total, need_b))
+                    if not ok_bits and pl is not None:
+                        wrong = [j for j in range(min(len(bs), need_b)) if bs[j] != (("sbyte", j) if j < total else fold.mk_int("u8", 0))]
+                        pl = (("%d bits" % (to_py(pl[0][4][0]) if pl[0] != TOP and pl[0][0] == "adt" and pl[0][4][0] != TOP else -1),
+                               "codeword(s) %s altered" % wrong[:4] if wrong else "%d bytes" % len(bs)),) + tuple(pl[1:])
+                else:
+                    ok_bits = pl is not None and pl[0] != TOP and pl[0][0] == "adt" and pl[0][4][1] == ("tok", ("structured",)) and \
+                        pl[0][4][0] == fold.mk_int("usize", nbits)
                 if not ok_bits or pl[1:3] != (l, vv):
                     bad.append(("placement-arguments", ("structure(..) as %d bits" % nbits, l, vv), str(pl)[:160]))
                 q = r.value
